@@ -102,10 +102,32 @@ ADD2 = {
  "C19": "; attrs converters applied to defaults, templates built the way attrs builds them; find_workflow evaluated with the arguments cli.main passes; $PWD rows",
  "C20": "; the config session runs on the object cli.main builds; KEY=VALUE text coerced like `config set`; backend factories with real signatures (inspect.signature modelled)",
 }
+# rules added in DESIGN 9.13 (round 8)
+ADD3 = {
+ "C01": "; nothing but update/invalidate/the loader changes the spec-hash table; each tracked id gets the state of its own job (C08.R1/R2)",
+ "C02": "; the tracked-jobs table is written by submit and the loader only, entries are never removed; endpoints whose last job failed or was cancelled; a workflow with a redundant edge; the scheduler does not change the graph",
+ "C03": "; _norm_path is lexical (no realpath)",
+ "C04": "; a true return value of a package-defined __exit__ swallows the validation error (modelled); the cycle search skips no unvisited dependency",
+ "C05": "; table ownership; ids keep their type between submit, state file and query; logging.Filter classes pass records that differ in their arguments only",
+ "C06": "; table ownership for both stores",
+ "C07": "; table ownership; prerequisite lists are not reduced transitively",
+ "C08": "; every state the live queue can show (codes and long names) and its accounting name; table ownership",
+ "C09": "; table ownership; any time limit on a submit command; SIGINT disposition on the path of `gwf run`; an exclusive temporary file meeting the leftover of an interrupted write",
+ "C10": "; clean_logs on a modelled log directory with dotted target names; option resolution with realistic names (no value leaks to a similarly named option)",
+ "C12": "; the semaphore is created once; a finally block that touches `proc` while it is None; CPU affinity in click ranges",
+ "C13": "; read(n) may return short chunks; logs are removed by run's log cleaning only",
+ "C14": "; ids keep their type (C08.R2); the reply with the state table can be serialised",
+ "C16": "; all commands open the spec-hash store with the same arguments; near-miss names select nothing",
+ "C17": "; the backend's last-known state does not decide whether a cancel is sent; table ownership; the local id survives the round trip to cancel_task",
+ "C18": "; `gwf config set use_spec_hashes yes|no` stores the boolean; sibling agreement of get_spec_hashes call sites",
+ "C19": "; find_workflow twice in one process; characters that are not control characters are legal; the pool starts the task in the directory it was sent",
+ "C20": "; the group callback does not write the configuration file; switch names in the config session",
+}
 checks = []
 for pid, (text, note, tech) in sorted(P.items()):
     extra = ADD.get(pid)
     text = text + ADD2.get(pid, "")
+    text = text + ADD3.get(pid, "")
     if extra:
         text = text + extra[0]
         if extra[1]:
